@@ -235,7 +235,8 @@ def r4_dedup(ctx):
         value = [n for n in ast.walk(f.node) if isinstance(n, ast.Call) and callee_last(n) in ("unique", "drop_duplicates")]
         bad = label or value
         how = "index label" if label else "row value"
-        ctx.ob("R4", f, f"{f.short}: overlapping selections are de-duplicated by position", not bad,
+        how_all = sorted(({"index label"} if label else set()) | ({"row value"} if value else set()))
+        ctx.ob("R4", f, f"{f.short}: overlapping selections are de-duplicated by position" + (f" (found: by {' and '.join(how_all)})" if bad else ""), not bad,
                "no label/value based de-duplication" if not bad else
                f"`{txt((label or value)[0])[:60]}` de-duplicates by {how}: distinct rows that share the {how} are removed from the "
                "subsample, so invalid rows among them are never checked", f.loc((label or value)[0]) if bad else "")
